@@ -20,7 +20,7 @@ RULE = ("for each gridder (Spline damped/undamped, Trend, VectorSpline2D, KNeigh
 ASSUMPTIONS = [
     "layout/dtype/extra-coordinate changes perform the same arithmetic: agreement within 1e-12 relative (NaN == NaN)",
     "permutations and linear combinations of least-squares gridders: 256*kappa*eps*scale with kappa from the harness-built scaled (augmented) Jacobian; skipped when kappa > 1e8",
-    "Cubic under permutation only with rescale=True or unit, isotropic coordinate scale, tolerance 1e-2*max|d| (SciPy's iterative gradient estimate is order dependent, DESIGN.md 3.1)",
+    "Cubic is excluded from the permutation relation (SciPy's iterative gradient estimate is order dependent by several percent on thin triangulations); its layout/dtype relations and the bitwise SciPy differential (C03) remain",
     "KNeighbors queries with distance ties are not compared under permutation",
     "query easting/northing have equal shapes (documented contract)",
 ]
@@ -177,6 +177,7 @@ def layout_cases(draw):
     if integer:
         t["dtype_coords"] = draw(st.sampled_from(["float64", "int64", "int32"]))
         t["dtype_data"] = draw(st.sampled_from(["float64", "int64", "int32"]))
+        t["mixed_components"] = draw(st.booleans())  # second component keeps fractional float values while the first has an integer dtype
         t["dtype_query"] = draw(st.sampled_from(["float64", "int64", "int32"]))
     t["fit_shape"] = draw(st.sampled_from(blocks.shape_options(n)[1:] or [[n, 1]]))
     t["query_shape"] = draw(st.sampled_from(blocks.shape_options(m)[1:] or [[m, 1]]))
@@ -210,6 +211,11 @@ def check_layout(case, ctx):
     fit_kind = t["fit"]
     e2, n2 = present(e, fit_kind, t["fit_shape"], dc), present(n, fit_kind, t["fit_shape"], dc)
     data2 = [present(d, fit_kind, t["fit_shape"], dd) for d in case["data"]]
+    if t.get("mixed_components") and len(case["data"]) > 1:
+        frac = [v + 0.37 for v in case["data"][1]]
+        data2[1] = present(frac, fit_kind, t["fit_shape"], "float64")
+        ref = fit_predict(case, np.array(e, dtype="float64"), np.array(n, dtype="float64"), [np.array(case["data"][0], dtype="float64"), np.array(frac, dtype="float64")],
+                          np.array(qe, dtype="float64"), np.array(qn, dtype="float64"))
     extra = [present([float(i) for i in range(len(e))], fit_kind, t["fit_shape"], "float64") for _ in range(t["extra"])]
     qe2, qn2 = present(qe, t["query"], t["query_shape"], dq), present(qn, t["query"], t["query_shape"], dq)
     qextra = [present([1.0] * len(qe), t["query"], t["query_shape"], "float64") for _ in range(t["qextra"])]
@@ -251,8 +257,10 @@ def check_permutation(case, ctx):
 
         if not scipy_accepts(e, n, case["rescale"]):
             ctx.skip("scipy_cannot_triangulate")
-    if name == "cubic" and not (case["rescale"] or (case["cloud"]["scale"] == 1.0 and case["cloud"]["aspect"] == 1.0)):
-        # SciPy's iterative Clough-Tocher gradients depend on the point order (up to 16% on anisotropic clouds with tiny data, thorough tier)
+    if name == "cubic":
+        # SciPy's iterative Clough-Tocher gradient estimate depends on the order of the points (differences of 4-16 % between two orders of the
+        # same cloud were observed on thin triangulations, at any scale): the relation cannot be judged soundly for Cubic. verde's own part -
+        # handing points and values to SciPy in the caller's raveled order - is decided bitwise by the SciPy differential of C03.
         ctx.skip("cubic_order_sensitivity_of_scipy")
     kappa = kappa_of(case, e, n)
     if not kappa <= 1e8:
